@@ -55,6 +55,18 @@ CHECKS.update({
    text="Full property as a proof over the class table extracted from varintTaggedPut64: first-byte ranges of consecutive classes are disjoint and increasing; within a class the bytes are the most-significant-first base-256 digits of x-a plus a constant first-byte offset; the length readers are functions of byte 0 returning the class length. Lemma: memcmp order == numeric order for all 2^128 pairs and, by prefix-freeness, for all tuples.",
    note=TB + E1NOTE,
    tech="static analysis: abstract interpretation producing a closed-form class table + ordering lemma checked on the table"),
+ "C09": dict(engine="E2", cat="other", ref="DESIGN.md 4/C09, 3/E2",
+   text="Set/Get/SetHalf/SetIncr of every packed-array instantiation (quick: the 11 occurring in the tree plus the library's own; thorough: all 106 eligible width 1-32 x slot 8/16/32/64 x default/compact combinations, 15k cases) are interpreted abstractly with the element position partitioned by residue modulo SLOT/gcd(BITS,SLOT): the written slots equal the old slots with exactly the element's bits replaced by the value's bits, Get returns exactly those bits, the second slot is touched only when the element straddles, no other location is accessed. Sorted insert/delete/member/search semantics over histories and SetIncr arithmetic are NOT decided.",
+   note=TB + "Preconditions from the property: val < 2^BITS (an assert in the source), SetIncr result in range. Instantiations are generated witnesses that #include /repo/src/varintPacked.h.",
+   tech="static analysis: bit-level abstract interpretation with congruence partitioning on LLVM IR"),
+ "C10": dict(engine="W + E2 + structural rules", cat="other", ref="DESIGN.md 4/C10",
+   text="D1: 720 static assertions over the repository's own PAIR/ROW_COUNT/COL_COUNT/IS_SPARSE/BYTE_LENGTH macros and the 144 named enumerators (a violating header does not compile). D2: the header writer places the two counts adjacently with the widths encoded in the returned dimension. D3: the cell offset is header+(row*cols+col)*w on every path and each typed accessor touches the matrix only there. D4: bit cells - Set makes the addressed bit equal to the argument, Toggle flips and returns the old value, Get reads it; no other bit/byte changes. Pack/Unpack nibble packing and float conversions are NOT decided.",
+   note=TB + "Cell independence follows from D3 (disjoint [off, off+w) ranges beyond the header) under the assumption that header bytes hold the counts written by D2.",
+   tech="static analysis: compile-fail witnesses, bit-level abstract interpretation, symbolic offset comparison on LLVM IR"),
+ "C11": dict(engine="E2", cat="other", ref="DESIGN.md 4/C11, 3/E2",
+   text="varintBitstreamSet/Get for each word type (uint8_t..uint64_t), each start-bit residue modulo the word size and each width up to the word size (thorough: all; quick: all for 8/16-bit words, 19 representative widths for 32/64): value bits land MSB-first exactly at [start, start+n), every other bit of the touched words is unchanged, the second word is touched only when straddling, Get returns exactly those bits. The sign-helper constant is representable (compile witness). restore(prepare(v))==v is NOT decided.",
+   note=TB + "Precondition: val < 2^n (assert in the source); n <= bits per word.",
+   tech="static analysis: bit-level abstract interpretation with congruence partitioning on LLVM IR"),
 })
 NA = {
  "C02": "losslessness of array codecs is value-level equality after arithmetic; no clause has a shape in the code that static analysis can decide (DESIGN.md 4/C02)",
